@@ -156,7 +156,7 @@ func plain(n *node.Node, r *rand.Rand) (*blockchain.Block, error) {
 }
 
 func handlers(c *mon.Ctx) {
-	c.Cases("handlers", c.N(24, 600), func(k *mon.Case) {
+	c.Cases("handlers", c.N(64, 1200), func(k *mon.Case) {
 		r := k.R
 		nv := 3 + r.Intn(4)
 		cfg := node.Config{Genesis: node.EqualGenesis(nv), Universe: nv, BatchSize: nv, MaxBlockCache: 5 + r.Intn(20)}
@@ -372,7 +372,7 @@ func newEvil(shard int, src *node.Node, mode string) (*evil, error) {
 }
 
 func convergence(c *mon.Ctx) {
-	c.Cases("converge", c.N(40, 600), func(k *mon.Case) {
+	c.Cases("converge", c.N(160, 3000), func(k *mon.Case) {
 		r := k.R
 		k.Watch("convergence", 240*time.Second, func() { converge(k, r, c.Shard()) })
 	})
@@ -544,6 +544,8 @@ func syncAndJudge(k *mon.Case, a, b *node.Node, remote *p2p.AddrInfo, ev *evil, 
 	}
 	// B's tip arrives at A from that peer
 	tipB := node.CloneBlock(b.Tip())
+	ta := a.Tip().Header
+	better := tipB.Header.MaxHeightPrevoted > ta.MaxHeightPrevoted || (tipB.Header.MaxHeightPrevoted == ta.MaxHeightPrevoted && tipB.Header.Height > ta.Height)
 	// harness-level bound on one sync (not a verdict): a peer that keeps answering with empty
 	// segments makes the downloader ask forever, which is property C09's subject
 	bound := 45 * time.Second
@@ -567,6 +569,26 @@ func syncAndJudge(k *mon.Case, a, b *node.Node, remote *p2p.AddrInfo, ev *evil, 
 	}
 	shape := fmt.Sprintf("%s|forkA%d|ahead%d|fast%v%s", mode, forkA, ahead/3, ahead <= 2*nv, tag)
 	if mode == "honest" {
+		if !better {
+			// the peer's chain has no priority under the LIP-0014 order (the node's own fork
+			// carries a higher maxHeightPrevoted): nothing to converge to
+			k.Count("peer_chain_not_better_than_own_fork", 1)
+			return wit, false
+		}
+		// fast sync legitimately gives up ("wait for new block") when the common block lies more
+		// than two rounds below either tip; the node must then get there through the peer's next
+		// blocks. Bounded progress: within 2 rounds + 2 further blocks of the peer.
+		for extra := 0; extra < 2*nv+2 && !bytes.Equal(a.Tip().Header.ID, b.Tip().Header.ID); extra++ {
+			nb, err := plain(b, rand.New(rand.NewSource(int64(extra)+int64(prefix))))
+			if err != nil || b.Apply(nb) != nil {
+				break
+			}
+			k.Count("extra_peer_blocks_delivered", 1)
+			cctx, ccancel := context.WithTimeout(context.Background(), 45*time.Second)
+			a.Exec.VerifProcess(cctx, node.CloneBlock(b.Tip()), remote.ID) //nolint:errcheck
+			ccancel()
+		}
+		wit["a_tip_after"], wit["b_tip"] = a.Tip().Header.Height, b.Tip().Header.Height
 		if !bytes.Equal(a.Tip().Header.ID, b.Tip().Header.ID) {
 			k.Violation("converge:honest-peer-not-followed", "node offered a better valid chain by an honest peer did not end on that chain", wit)
 		} else {
